@@ -1,7 +1,7 @@
 #!/bin/bash
 # tools/seedeval.sh <ID> [seeddir]  -- confirm a seeded change (demo passes without / fails with, related repo tests pass with it),
 # then run the property's check against it. Writes /verif/seeded/<ID>/{patch.diff,demo*,notes.md,meta.json}.
-ID=$1; SRC=${2:-/tmp/seed-$ID/_seed}; DST=/verif/seeded/$ID
+ID=$1; SRC=${2:-/tmp/seed-$ID/_seed}; DST=/verif/seeded/${3:-$ID}
 mkdir -p $DST; cp $SRC/patch.diff $DST/ 2>/dev/null; cp $SRC/demo* $DST/ 2>/dev/null; cp $SRC/notes.md $DST/ 2>/dev/null
 DEMO=$(ls $DST/demo* | head -1)
 WT=/tmp/vf-seedeval-$$
